@@ -42,6 +42,27 @@ P = {
  "C15": (True, "exploration", "runtime monitoring: region-map oracle over labels of every coordinate, complete (version, level, mask) space + callback spy",
          "All 1280 cells: the public type label of every coordinate is compared with the ISO region (either label accepted where alignment patterns sit on the timing line), Data-label count with 8*codewords+remainder, one label map per version across payloads/levels/masks, and the module handed to a Shape::Command callback with QRCode.data.",
          MODEL, "5/C15"),
+ "C12": (True, "exploration", "runtime monitoring: strict XML parser + own path interpreter as oracle over random SvgBuilder programs",
+         "Random builder programs (margins, 0-5 shape layers over the 6 shapes, array/hex/named colours, image strings with & < > \" ' and non-ASCII) are rendered and the document is parsed by an independent strict XML parser; viewBox, background, per-layer fills and one sub-path per dark module (bounding box inside its unit cell, none in the quiet zone or on light modules) and the parsed href are checked. The pinned tree's href defect was repaired by a fix: commit and is reported again if it returns.",
+         "roxmltree as XML authority; sub-path geometry via my own path-data interpreter (arcs sampled at 512 points).", "5/C12, 6"),
+ "C13": (True, "exploration", "runtime monitoring: pixel oracle on rendered pixmaps + own PNG reader; AddressSanitizer stage over resvg/tiny-skia (thorough)",
+         "Pixmaps for 6 shapes x margins x fit modes x colour pairs are compared at the centre pixel of every cell (>= 4 px/module) and at every pixel for squares at integer scale; side must be size+2*margin or the requested square; to_bytes is decoded by an independent PNG reader (CRC, inflate, unfilter) and compared with the pixmap. Thorough adds 600 renders under ASan+LSan whose outputs must equal the native digests.",
+         "Centre sampling is only asserted at >= 4 px/module; semi-transparent colours at tolerance 2/255.", "5/C13"),
+ "C14": (True, "exploration", "runtime monitoring: call-history and schedule differential (fresh builder on fresh thread as reference); ThreadSanitizer + multi-threaded Miri stages (thorough)",
+         "Random setter/build/render histories on shared builders are compared byte for byte (all 31,329 module bytes + fields, SVG/PNG/terminal output) with fresh builders given only the final option values on fresh threads; 1..16 threads run shuffles of one job list against a single-threaded reference; thorough adds TSan (std instrumented, 16 threads) and Miri with 16 scheduler seeds. Only schedules that actually occurred are decided.",
+         "No model: the reference is the crate itself on a fresh builder/thread, so only history- or schedule-dependence is decided here (correctness is C01-C13).", "5/C14"),
+ "C16": (True, "exploration", "runtime monitoring: text-decoding oracle over all 40 sizes",
+         "to_str() of symbols of all 40 sizes is decoded character by character into (top, bottom) half-rows and compared with the module values surrounded by a one-module light border; line count, width and alphabet are checked.",
+         "First half-row above the top border is the filler of the odd row count and is not constrained.", "5/C16"),
+ "C17": (True, "exploration", "runtime monitoring via guarded hook: src/wasm.rs executed on the host, option-program differential against the native API under catch_unwind",
+         "Random option programs (all 11 setters, repeats, malformed colours, position arrays of any length, NaN/inf, size without position and vice versa) run against the wasm entry points compiled for the host; every call is under catch_unwind (unwind = trap); qr() and qr_svg() must equal the native default build / the SvgBuilder configured from a model of the option object, or be empty on error. Three genuine traps/divergences of the pinned tree were repaired by fix: commits and are reported again if they return.",
+         "64-bit host compilation of the unmodified file; wasm32-only behaviour is out of reach in this image.", "5/C17, 6"),
+ "C18": (True, "exploration", "runtime monitoring: geometry oracle on the parsed frame/image elements; default-placement space exhaustive",
+         "All 2040 default placements (40 versions x 3 frame shapes x margins 0..16) are enumerated: frame centred, integer edges, < 40% of the side, clear of the finders, non-decreasing in the version, image square/centred/not larger; sampled real-valued size/gap/position overrides must be honoured as stated.",
+         "Element geometry is read from the XML tree, not from the crate's table; two-decimal rounding of the image element is allowed for.", "5/C18"),
+ "C19": (True, "fault_enumeration", "runtime fault injection: LD_PRELOAD libc shim (open*/creat/write) + real file-system faults, each case in a child process",
+         "Every fault class named by the property (missing directory, path is a directory, read-only location via EACCES/EROFS, device full via /dev/full and injected ENOSPC at the first and at the k-th write, plus EIO/EDQUOT/EMFILE, short writes, EINTR) is provoked for SVG and PNG output; the shim logs every fault actually delivered; Ok(()) requires the file to equal the in-memory rendering, a delivered hard fault requires Err(_) through ConvertError::from and a normal exit.",
+         "Faults are injected at the libc boundary; kernel-level partial failures (e.g. at close/fsync) are not modelled because the code under test does not call them.", "5/C19"),
 }
 ALL = ["C%02d" % i for i in range(1, 20)]
 
